@@ -348,6 +348,104 @@ fn consume_after_failed_fill_buf(ctx: &mut Ctx) {
     }
 }
 
+/// a source that delivers a prefix of the input in small pieces and then FAILS with
+/// `ErrorKind::UnexpectedEof` (what a truncated gzip / TLS stream below the parser reports)
+#[derive(Debug)]
+struct EofFailing<'a> {
+    data: &'a [u8],
+    piece: usize,
+}
+
+impl std::io::Read for EofFailing<'_> {
+    fn read(&mut self, buf: &mut [u8]) -> std::io::Result<usize> {
+        if self.data.is_empty() {
+            return Err(std::io::Error::new(std::io::ErrorKind::UnexpectedEof, "truncated stream"));
+        }
+        let n = self.data.len().min(buf.len()).min(self.piece.max(1));
+        buf[..n].copy_from_slice(&self.data[..n]);
+        self.data = &self.data[n..];
+        Ok(n)
+    }
+}
+
+/// every armored / binary entry point over a source that fails with `UnexpectedEof` after a prefix
+fn sources_failing_with_unexpected_eof(ctx: &mut Ctx, ring: &Ring) {
+    use pgp::composed::{CleartextSignedMessage, Deserializable, DetachedSignature, SignedPublicKey, SignedSecretKey};
+    let site = "from_armor / from_bytes entry points over a source that fails with UnexpectedEof after a prefix";
+    let mut rng = ChaCha8Rng::seed_from_u64(ctx.seed ^ 0xC04E);
+    let key: &SignedSecretKey = &ring.keys[3].1;
+    let mut docs: Vec<(&str, Vec<u8>)> = Vec::new();
+    if let Ok(Ok(c)) = guard(|| CleartextSignedMessage::sign(&mut rng, "hello\n- dash\n", &key.primary_key, &Password::empty())) {
+        if let Ok(t) = c.to_armored_string(Default::default()) {
+            docs.push(("cleartext", t.into_bytes()));
+        }
+    }
+    if let Ok(t) = key.to_public_key().to_armored_string(Default::default()) {
+        docs.push(("public key", t.into_bytes()));
+    }
+    if let Ok(t) = key.to_armored_string(Default::default()) {
+        docs.push(("secret key", t.into_bytes()));
+    }
+    if let Ok(Ok(m)) = guard(|| {
+        let mut b = pgp::composed::MessageBuilder::from_bytes("", b"signed and armored".to_vec());
+        b.sign(&key.primary_key, Password::empty(), HashAlgorithm::Sha256);
+        b.to_armored_string(&mut rng, Default::default())
+    }) {
+        docs.push(("signed message", m.into_bytes()));
+    }
+    for (what, doc) in &docs {
+        let stride = if ctx.thorough() { 1 } else { 3 };
+        for cut in (0..doc.len()).step_by(stride) {
+            for piece in [16usize, 1] {
+                if piece == 1 && cut % 7 != 0 && !ctx.thorough() {
+                    continue;
+                }
+                let t = Instant::now();
+                let r = guard(|| {
+                    let mut n = 0usize;
+                    let src = || std::io::BufReader::with_capacity(64, EofFailing { data: &doc[..cut], piece });
+                    n += CleartextSignedMessage::from_armor(src()).is_ok() as usize;
+                    n += SignedPublicKey::from_armor_single(src()).is_ok() as usize;
+                    n += SignedSecretKey::from_armor_single(src()).is_ok() as usize;
+                    n += DetachedSignature::from_armor_single(src()).is_ok() as usize;
+                    if let Ok((mut m, _)) = Message::from_armor(src()) {
+                        let mut out = Vec::new();
+                        n += std::io::Read::read_to_end(&mut m, &mut out).is_ok() as usize;
+                    }
+                    n += SignedPublicKey::from_reader_many(src()).map(|(it, _)| it.take(4).count()).unwrap_or(0);
+                    n
+                });
+                no_panic(ctx, site, &format!("{what} prefix of {cut} octets in pieces of {piece}, then Err(UnexpectedEof); doc={}", hx(doc)), &r, t);
+                ctx.stat("source_unexpected_eof");
+            }
+        }
+    }
+    // (the packet-level decrypt of a version 1 SEIPD packet when the caller has no cipher to name:
+    //  a session key from a v6 ESK in front of a v1 container)
+    for ver in [1u8, 2] {
+        let mut body = vec![ver];
+        if ver == 2 {
+            body.extend_from_slice(&[7, 2, 0]);
+            body.extend_from_slice(&[0x5A; 32]);
+        }
+        body.extend_from_slice(&[0x33; 60]);
+        let pkt = crate::wire::packet(18, &body);
+        let t = Instant::now();
+        let r = guard(|| {
+            let mut n = 0;
+            for p in PacketParser::new(&pkt[..]).flatten() {
+                if let pgp::packet::Packet::SymEncryptedProtectedData(s) = p {
+                    for alg in [None, Some(SymmetricKeyAlgorithm::AES128), Some(SymmetricKeyAlgorithm::Plaintext)] {
+                        n += s.decrypt(&[1u8; 16], alg, Default::default()).is_ok() as usize;
+                    }
+                }
+            }
+            n
+        });
+        no_panic(ctx, "SymEncryptedProtectedData::decrypt(key, sym_alg: None | Some, mode)", &format!("packet={}", hx(&pkt)), &r, t);
+    }
+}
+
 /// multi-octet fields placed across the 8 KiB refill boundary of the packet body reader, in packets
 /// whose declared length ends inside such a field, and the same inputs delivered through readers that
 /// hand out 1..7 octets per `fill_buf`: every `read_be_*` / `read_arr` / `take_bytes` of the parsers
@@ -621,6 +719,7 @@ pub fn run(ctx: &mut Ctx, ring: &Ring) {
     let mut rng = ChaCha8Rng::seed_from_u64(ctx.seed ^ 0xC04C);
     partial_cut_containers(ctx);
     consume_after_failed_fill_buf(ctx);
+    sources_failing_with_unexpected_eof(ctx, ring);
     tiny_and_octet_sweeps(ctx);
     boundary_straddles(ctx, ring);
     read_after_error(ctx);
